@@ -11,6 +11,7 @@ use vcore::num::{next_down, next_up};
 use vcore::{json, Check, Outcome, Report, Tier, Value};
 
 const LATTICE_PROBLEMS: [&str; 6] = ["rest", "lin+1", "osc1", "rot2:cost+relax", "rot3:osc2.5+gauss", "rot4:osc1+logistic+bernoulli"];
+const LONG_PROBLEMS_EULER: [&str; 2] = ["rest", "rot2:cost+relax"];
 const LONG_PROBLEMS: [&str; 4] = ["rest", "osc1", "rot2:cost+relax", "rot4:osc1+logistic+bernoulli"];
 
 #[derive(Serialize, Deserialize, Clone, Debug)]
@@ -73,7 +74,9 @@ impl Check for Lattice {
         let mut v = vec![];
         for &solver in &ALL_SOLVERS {
             for &r in &r_values(t) {
-                let probs: &[&str] = if r >= 1000.0 { &LONG_PROBLEMS } else { &LATTICE_PROBLEMS };
+                // long intervals only on problems for which the method itself stays bounded (explicit Euler with
+                // a step of 0.5 amplifies an undamped oscillator without bound: that is the method, not a defect)
+                let probs: &[&str] = if r >= 1000.0 { if solver == Solver::Euler { &LONG_PROBLEMS_EULER } else { &LONG_PROBLEMS } } else { &LATTICE_PROBLEMS };
                 for p in probs {
                     for &t0 in &t.pick(vec![0.0, -1.3], vec![0.0, -1.3, 2.5]) {
                         if solver == Solver::Euler {
